@@ -175,6 +175,7 @@ def gen_c15(r, tier):
     if r.random() < 0.6:
         S["between"].append({"kind": "same", "seed": r.randint(0, 10 ** 6), "T": float(r.choice([2, 5]))})
     S["fresh"] = r.random() < (0.02 if tier == "quick" else 0.04)
+    S["reuse_tracker"] = r.random() < 0.4
     if mode == "isolation":
         S["chunks"] = sorted(round(r.uniform(0, S["T"]), 2) for _ in range(r.randint(1, 4)))
     return S
@@ -278,9 +279,11 @@ def build_net(N, abort_after=None):
     return ciw.create_network(**kw)
 
 
-def mk_sim(net, N, exact=None):
+def mk_sim(net, N, exact=None, tracker=None):
     kw = {}
-    if N.get("tracker"):
+    if tracker is not None:
+        kw["tracker"] = tracker           # the caller hands the same tracker object to several simulations
+    elif N.get("tracker"):
         kw["tracker"] = getattr(ciw.trackers, N["tracker"])()
     if exact:
         kw["exact"] = exact
@@ -318,13 +321,13 @@ def run_item(item, main_net_obj, main_N):
         pass
 
 
-def main_run(S, net=None):
+def main_run(S, net=None, tracker=None):
     """seed; build; run  -> (digest, number of records)"""
     from decimal import getcontext
     ciw.seed(S["seed"])
     if net is None:
         net = build_net(S["main"])
-    Q = mk_sim(net, S["main"], exact=S.get("exact"))
+    Q = mk_sim(net, S["main"], exact=S.get("exact"), tracker=tracker)
     Q.simulate_until_max_time(S["T"])
     return digest_of(Q), net
 
@@ -360,7 +363,11 @@ def run_c15(S, oracles=None, wall=60):
         import random as _random
         ciw.seed(S["seed"])
         st0 = _random.getstate()
-        (dA, nA), netA = main_run(S)
+        shared_tracker = None
+        if S.get("reuse_tracker") and S["main"].get("tracker") and mode != "isolation":
+            shared_tracker = getattr(ciw.trackers, S["main"]["tracker"])()
+            counts["F9:tracker_object_reused"] += 1
+        (dA, nA), netA = main_run(S, tracker=shared_tracker)
         if mode == "isolation" and _random.getstate() != st0:
             # the solo run consumed the global random stream (a tie was broken at random): interleaved
             # simulations legitimately share that stream, so the comparison is out of domain
@@ -371,10 +378,10 @@ def run_c15(S, oracles=None, wall=60):
         for item in S["between"]:
             counts["F9:between:" + run_item(item, netA if mode == "reuse" else net_for_same, S["main"])] += 1
         if mode == "repeat":
-            (dB, nB), _ = main_run(S)
+            (dB, nB), _ = main_run(S, tracker=shared_tracker)
             what = "second run after seed(s) on a freshly built network"
         elif mode == "reuse":
-            (dB, nB), _ = main_run(S, net=netA)
+            (dB, nB), _ = main_run(S, net=netA, tracker=shared_tracker)
             what = "second run after seed(s) re-using the first run's Network object"
         else:
             # isolation: two simulations of ONE network advanced alternately must each equal the solo run
@@ -491,6 +498,10 @@ def minimise15(S, runner, prop, clause, budget_s):
         if cur.get("exact"):
             T = copy.deepcopy(cur)
             T["exact"] = None
+            cands.append(T)
+        if cur.get("reuse_tracker"):
+            T = copy.deepcopy(cur)
+            T["reuse_tracker"] = False
             cands.append(T)
         if cur.get("fresh") and not clause.endswith("fresh-interpreter"):
             T = copy.deepcopy(cur)
